@@ -102,13 +102,29 @@ theorem timeout_hard_fails_soft_resumes (s : Core) (app : String) (a : CApp) (hf
     (∃ a', (phTimeoutOf false s app).findApp app = some a' ∧ a'.state = "Resuming") :=
   ⟨phTimeoutOf_hard s app a hfind hst, phTimeoutOf_soft s app a hfind hst⟩
 
-/-- … and when the last placeholder of the failing / resuming application is gone it is Failed (and leaves the partition)
-    resp. Accepted again (normal scheduling). -/
+/-- … and when the last placeholder of the failing / resuming application is gone: a resuming application is Accepted
+    again (normal scheduling); a failing one is Failed and leaves the partition — once it holds no real allocation either
+    (fix 81c5cb7: its real allocations were released with the placeholders; while one of them still waits for the shim's
+    confirmation the application stays Failing, and the confirmation of the last one fails it). -/
 theorem last_placeholder_gone (tt : TermType) (key : String) (i : CItem) (a : CApp) (hph : i.ph = true)
     (hz : isZero (some (relAppT tt key i a).allocatedPh) = true) :
-    (a.state = "Failing" → (relAppT tt key i a).state = "Failed" ∧ (relAppT tt key i a).live = false) ∧
+    (a.state = "Failing" → isZero (some a.allocated) = true →
+      (relAppT tt key i a).state = "Failed" ∧ (relAppT tt key i a).live = false) ∧
+    (a.state = "Failing" → isZero (some a.allocated) = false →
+      (relAppT tt key i a).state = "Failing" ∧ (relAppT tt key i a).live = true) ∧
     (a.state = "Resuming" → (relAppT tt key i a).state = "Accepted" ∧ (relAppT tt key i a).live = true) :=
-  ⟨fun h => relAppT_failing_last tt key i a hph h hz, fun h => relAppT_resuming_last tt key i a hph h hz⟩
+  ⟨fun h hr => relAppT_failing_last tt key i a hph h hz hr, fun h hr => relAppT_failing_last_keeps tt key i a hph h hz hr,
+   fun h => relAppT_resuming_last tt key i a hph h hz⟩
+
+/-- the last real allocation of a failing application: Failed once the placeholders are gone as well, Failing while one
+    is left -/
+theorem failing_last_real_allocation (tt : TermType) (key : String) (i : CItem) (a : CApp) (hph : i.ph = false)
+    (hst : a.state = "Failing") :
+    (isZero (some a.pending) = true → isZero (some (relAppT tt key i a).allocated) = true → isZero (some a.allocatedPh) = true →
+      (relAppT tt key i a).state = "Failed" ∧ (relAppT tt key i a).live = false) ∧
+    (isZero (some a.allocatedPh) = false → (relAppT tt key i a).state = "Failing" ∧ (relAppT tt key i a).live = true) :=
+  ⟨fun hp hz hzp => relAppT_failing_last_real tt key i a hph hst hp hz hzp,
+   fun hzp => relAppT_failing_real_keeps tt key i a hph hst hzp⟩
 
 /-- A Running / Completing application that still holds placeholders keeps its state and its asks; every bound placeholder
     that is not being preempted is marked released. -/
